@@ -249,6 +249,49 @@ def _tensor_case(c):
     return fails, out
 
 
+def _tensor_hier_case(c):
+    """d-dimensional tensor grids of the high-order and hierarchical rules (with boundary points): every multilinear monomial is exact on
+    every tensor product of refinement trees; all monomials carried as ONE vector-valued function and, independently, one by one as
+    scalar functions (the per-pole hierarchisation treats the output components and the poles of the other dimensions together)"""
+    from sparseSpACE import Grid as G
+    from sparseSpACE.Function import CustomFunction
+    ts, a, b = c["trees"], c["a"], c["b"]
+    d = len(ts)
+    fails, out = [], []
+    subsets = [S for k in range(d + 1) for S in itertools.combinations(range(d), k)]
+    ex = np.array([float(np.prod([_exact(1, a[i], b[i]) if i in S else (b[i] - a[i]) for i in range(d)])) for S in subsets])
+    mono = lambda x, S: float(np.prod([float(x[i]) for i in S])) if S else 1.0
+    for kind in c["rules"]:
+        name, arg = kind[0], (tuple(kind[1]) if isinstance(kind[1], list) else kind[1])
+        key = {"rule": name + "_%dd" % d, "order": str(arg)}
+        aa, bb = np.array(a, dtype=float), np.array(b, dtype=float)
+
+        def make():
+            if name == "highorder":
+                return G.GlobalHighOrderGrid(aa, bb, boundary=True, max_degree=arg[0], split_up=arg[1])
+            if name == "lagrange":
+                return G.GlobalLagrangeGrid(aa, bb, boundary=True, p=arg)
+            return G.GlobalBSplineGrid(aa, bb, boundary=True, p=arg)
+        g = make()
+        g.set_grid([list(t[0]) for t in ts], [list(t[1]) for t in ts])
+        lv = [max(t[1]) for t in ts]
+        fv = CustomFunction(lambda x: [mono(x, S) for S in subsets], output_length=len(subsets))
+        val = np.asarray(g.integrate(fv, lv, aa, bb), dtype=float).ravel()
+        tol = 1e-9 * max(1.0, float(np.max(np.abs(ex))))
+        if val.shape != ex.shape or np.max(np.abs(val - ex)) > tol:
+            i = int(np.argmax(np.abs(val - ex))) if val.shape == ex.shape else 0
+            fails.append(fail("tensor_multilinear_exactness", "trees %r: vector-valued integrand, monomial %r: %r, exact %r" % ([t[0] for t in ts], subsets[i], val[i] if val.shape == ex.shape else val.shape, ex[i]), dict(key, output="vector")))
+        for i, S in enumerate(subsets):
+            g1 = make()
+            g1.set_grid([list(t[0]) for t in ts], [list(t[1]) for t in ts])
+            v1 = float(np.asarray(g1.integrate(CustomFunction(lambda x, S=S: mono(x, S)), lv, aa, bb), dtype=float).ravel()[0])
+            if abs(v1 - ex[i]) > tol:
+                fails.append(fail("tensor_multilinear_exactness", "trees %r: scalar integrand, monomial %r: %r, exact %r" % ([t[0] for t in ts], S, v1, ex[i]), dict(key, output="scalar")))
+                break
+        out.append(tuple(round(float(v), 9) for v in val))
+    return fails, out
+
+
 def _reuse_case(c):
     """ONE grid object receives a sequence of refinement trees (set_grid); after each the weights must equal those of a fresh object"""
     from sparseSpACE.Grid import GlobalTrapezoidalGrid
@@ -279,7 +322,7 @@ def _reuse_case(c):
 def run_case(case):
     c = case["config"]
     kind = c["kind"]
-    fails, out = {"trap": _trap_case, "hier": _hier_case, "tensor": _tensor_case, "reuse": _reuse_case}[kind](c)
+    fails, out = {"trap": _trap_case, "hier": _hier_case, "tensor": _tensor_case, "tensor_hier": _tensor_hier_case, "reuse": _reuse_case}[kind](c)
     return {"failures": fails, "canon": core.config_key(c), "outcome": tuple(out), "nontrivial": True, "evals": max(1, len(out))}
 
 
@@ -328,6 +371,16 @@ def cases(tier):
     for t0 in T3:
         for t1 in T3b:
             out.append({"config": {"kind": "tensor", "a": [-1.0, 2.0], "b": [3.0, 4.0], "trees": [list(t0), list(t1)]}})
+    # high-order and hierarchical rules on d-dimensional tensor grids (anisotropic shifted boxes), vector-valued and scalar integrands
+    rules = [[k[0], list(k[1]) if isinstance(k[1], tuple) else k[1]] for k in HIER]
+    T2a, T2b = trees.all_trees_depth(3, -1.0, 3.0), trees.all_trees_depth(3, 2.0, 4.0)
+    for t0 in T2a:
+        for t1 in T2b:
+            out.append({"config": {"kind": "tensor_hier", "a": [-1.0, 2.0], "b": [3.0, 4.0], "trees": [list(t0), list(t1)], "rules": rules}})
+    T2c = trees.all_trees_depth(2, 0.0, 1.0)
+    for t0, t1, t2 in itertools.product(trees.all_trees_depth(2, -1.0, 3.0) if q else T2a, trees.all_trees_depth(2, 2.0, 4.0), T2c):
+        out.append({"config": {"kind": "tensor_hier", "a": [-1.0, 2.0, 0.0], "b": [3.0, 4.0, 1.0], "trees": [list(t0), list(t1), list(t2)],
+                               "rules": [r for r in rules if r[0] != "highorder" or r[1] in ([3, True], [4, False])]}})
     return out
 
 
@@ -347,6 +400,7 @@ def main(ctx):
     ctx.bounds = {"cases": len(cs), "trap_trees": sum(1 for c in cs if c["config"]["kind"] == "trap"),
                   "hier_trees": sum(1 for c in cs if c["config"]["kind"] == "hier"),
                   "tensor_pairs": sum(1 for c in cs if c["config"]["kind"] == "tensor"),
+                  "tensor_hier_grids": sum(1 for c in cs if c["config"]["kind"] == "tensor_hier"),
                   "object_reuse_sequences": sum(1 for c in cs if c["config"]["kind"] == "reuse"), "rules": [str(k) for k in HIER]}
     return ctx.finish(
         rule="one case = one refinement tree (all trees with leaves at depth<=m united with all Catalan trees with <=n inner points; "
